@@ -326,3 +326,256 @@ Proof.
     injection Hi as <-. cbn [ttype_eqb andb]. split; [reflexivity|]. split; [reflexivity|]. split; [reflexivity|].
     split; [exact Hemit|]. apply Hverb; exact Hemit.
 Qed.
+
+(* ---------------------------------------------------------------- the main simulation *)
+(* the hypothesis about inline images: at every ID of the specification's reading, Tokenizer::findEI chooses the
+   end of the image data the specification chooses, and the data are not empty *)
+Inductive ei_ok : list N -> Prop :=
+| eo_end c : c16_step c = CsEnd -> ei_ok c
+| eo_tok c x rest : c16_step c = CsStep [x] rest -> ei_ok rest -> ei_ok c
+| eo_img c w data rest : c16_step c = CsStep [CsOp w; CsImage data] rest -> data <> [] ->
+    c16_find_ei (data ++ 69 :: 73 :: rest) = N.of_nat (length data) -> ei_ok rest -> ei_ok c.
+
+Lemma step_single c x rest : c16_step c = CsStep [x] rest ->
+  exists tk, spec_next c = LexTok tk rest /\
+    (forall inp' r', spec_next inp' = LexTok tk r' -> c16_step inp' = CsStep [x] r') /\
+    match tk with PKeyword w => list_eqb N.eqb w c16_kw_ID = false | _ => True end.
+Proof.
+  unfold c16_step. destruct (spec_next c) as [|tk rest0|] eqn:Esn; try discriminate.
+  destruct tk; try (intros H; injection H as <- <-; eexists; split; [reflexivity|]; split; [intros inp' r' ->; reflexivity|exact I]).
+  destruct (list_eqb N.eqb w c16_kw_ID) eqn:Eid.
+  - destruct (c16_after_ID rest0) as [[d r]|]; discriminate.
+  - intros H; injection H as <- <-. eexists. split; [reflexivity|]. split; [intros inp' r' ->; rewrite Eid; reflexivity|exact Eid].
+Qed.
+
+Lemma image_data_shape : forall s pw d rest, c16_image_data pw s = Some (d, rest) -> s = d ++ 69 :: 73 :: rest.
+Proof.
+  induction s as [|b r IH]; intros pw d rest H; [discriminate|]. cbn [c16_image_data] in H.
+  destruct r as [|c r2]; [cbn in H; discriminate|].
+  destruct (pw && (b =? 69) && (c =? 73) && c16_ends_token r2) eqn:Eh.
+  - cbn [tl] in H. injection H as <- <-.
+    apply andb_true_iff in Eh. destruct Eh as [Eh _]. apply andb_true_iff in Eh. destruct Eh as [Eh E3].
+    apply andb_true_iff in Eh. destruct Eh as [_ E2]. apply N.eqb_eq in E2, E3. subst. reflexivity.
+  - destruct (c16_image_data (iso_white b) (c :: r2)) as [[d0 rest0]|] eqn:Er; [|discriminate]. injection H as <- <-.
+    rewrite (IH _ _ _ Er). reflexivity.
+Qed.
+
+Lemma step_image c w data rest : c16_step c = CsStep [CsOp w; CsImage data] rest ->
+  exists ws, spec_next c = LexTok (PKeyword w) (ws :: data ++ 69 :: 73 :: rest) /\ list_eqb N.eqb w c16_kw_ID = true /\
+             iso_white ws = true /\ ends_cleanly rest /\
+             forall OUT, ends_cleanly OUT -> c16_image_data true (data ++ 69 :: 73 :: OUT) = Some (data, OUT).
+Proof.
+  unfold c16_step. destruct (spec_next c) as [|tk rest0|] eqn:Esn; try discriminate.
+  destruct tk; try discriminate.
+  destruct (list_eqb N.eqb w0 c16_kw_ID) eqn:Eid; [|discriminate].
+  destruct (c16_after_ID rest0) as [[d r]|] eqn:Ea; [|discriminate]. intros H. injection H as <- <- <-.
+  unfold c16_after_ID in Ea. destruct rest0 as [|ws dd]; [discriminate|]. destruct (iso_white ws) eqn:Ews; [|discriminate].
+  pose proof (image_data_shape _ _ _ _ Ea) as Hshape.
+  destruct (image_data_local _ _ _ _ Ea) as (p' & Hd & Hc1 & Himg).
+  assert (p' = d).
+  { rewrite Hshape in Hd. rewrite <- !app_assoc in Hd. cbn [app] in Hd.
+    assert (H2 : d ++ [69; 73] ++ r = p' ++ [69; 73] ++ r) by exact Hd.
+    rewrite !app_assoc in H2. apply app_inv_tail in H2. apply app_inv_tail in H2. congruence. }
+  subst p'. exists ws. rewrite Hshape. split; [reflexivity|]. split; [exact Eid|]. split; [exact Ews|]. split; [exact Hc1|].
+  intros OUT HO. specialize (Himg OUT HO). rewrite <- app_assoc in Himg. exact Himg.
+Qed.
+
+Lemma ei_token rest : ends_cleanly rest -> spec_token_at (69 :: 73 :: rest) = LexTok (PKeyword [69; 73]) rest.
+Proof.
+  intros Hc. cbn [spec_token_at].
+  change (69 =? 40) with false. change (69 =? 60) with false. change (69 =? 62) with false. change (69 =? 91) with false.
+  change (69 =? 93) with false. change (69 =? 123) with false. change (69 =? 125) with false. change (69 =? 47) with false.
+  change (iso_regular 69) with true. cbv iota.
+  change (69 :: 73 :: rest) with ([69; 73] ++ rest). rewrite span_while_app; [reflexivity|reflexivity|].
+  destruct rest; [exact I|exact Hc].
+Qed.
+
+Lemma read_token_image t s : t_state t = TS_inline_image ->
+  exists np last, read_token 0 true t s 0 = (tk_token (fst (run t s)), false, tk_reset (fst (run t s)), snd (run t s), np, last).
+Proof.
+  intros Hst. unfold read_token, next_token. rewrite Hst.
+  pose proof (nt_loop_run s t 0 0) as H. destruct (nt_loop 0 t s 0 0) as [[[t1 rest'] off] np]. cbn [fst snd] in H. rewrite H. cbn [fst snd].
+  eexists. eexists. rewrite andb_false_r. reflexivity.
+Qed.
+
+Lemma bytes_ok_cons_inv b l : bytes_ok (b :: l) -> bytes_ok l.
+Proof. intros H. inversion H; assumption. Qed.
+
+Lemma space_norm_single ws : iso_white ws = true -> exists ws', c16_space_norm [ws] = [ws'] /\ iso_white ws' = true.
+Proof. intros H. cbn [c16_space_norm]. destruct (ws =? 13); [exists 10|exists ws]; auto. Qed.
+
+Lemma token_consumes s tk rest p : spec_token_at s = LexTok tk rest -> s = p ++ rest -> p <> [].
+Proof.
+  intros Hs Hsp. destruct (token_local _ _ _ Hs) as (p' & Hp' & Hend & _).
+  assert (p' = p) by (rewrite Hsp in Hp'; apply app_inv_tail in Hp'; congruence). subst p'. apply ends_nonwhite_nonnil, Hend.
+Qed.
+
+Lemma norm_main : forall c, ei_ok c -> bytes_ok c -> ~ In 11 c ->
+  forall ts, sem_rel c ts -> forall t, tinv t ->
+  exists toks,
+    loop_rel t c toks /\ (length toks <= length c + 1)%nat /\ existsb tok_is_bad toks = false /\
+    sem_rel (concat (map c16_emit toks)) ts /\
+    (ends_cleanly c -> ends_cleanly (concat (map c16_emit toks))).
+Proof.
+  induction 1 as [c Hstep|c x rest Hstep Hok IH|c w data rest Hstep Hne Hei Hok IH]; intros Hb Hvt ts Hsem t Ht.
+  - (* only white space and comments remain *)
+    inversion Hsem as [? _|? ? ? ? Hs2 _]; subst; [|rewrite Hstep in Hs2; discriminate].
+    assert (Hskip : skip_ignorable false c = []).
+    { unfold c16_step, spec_next in Hstep. destruct (skip_ignorable false c) as [|b s]; [reflexivity|].
+      exfalso. destruct (spec_token_at (b :: s)) as [|tk r|] eqn:Et; [exact (token_at_not_end _ _ Et)| |discriminate].
+      destruct tk; try discriminate. destruct (list_eqb N.eqb w c16_kw_ID); [|discriminate]. destruct (c16_after_ID r) as [[? ?]|]; discriminate. }
+    destruct (ign_loop (length c) c (le_n _) Hb Hvt t Ht) as (pre & tp & t' & Hpre & Ht' & Hlp & Hpl & Hk & HY & _ & Hnr).
+    rewrite Hskip in *. rewrite app_nil_r in Hpre. subst pre.
+    destruct Ht' as (Hii & Hae & Hst). destruct (read_token_run t' [] Hst) as (np & last & Hrt).
+    rewrite (reset_ii t' Hii Hae) in Hrt. rewrite run_nil in Hrt. cbn in Hrt.
+    change (rev' (@nil N)) with (@nil N) in Hrt. set (eof := mkToken TT_eof [] [] TE_none) in Hrt.
+    assert (Hl : loop_rel t' [] [eof]) by (eapply lr_eof; [exact Hrt|reflexivity]).
+    exists (tp ++ [eof]). split; [apply Hk, Hl|]. split; [rewrite app_length; cbn; lia|].
+    assert (Hnb : existsb tok_is_bad tp = false).
+    { clear - Hpl. induction Hpl as [|y l (A & _) _ IHl]; [reflexivity|]. cbn. rewrite A, IHl. reflexivity. }
+    split; [rewrite existsb_app, Hnb; reflexivity|].
+    rewrite map_app, concat_app. cbn [map concat]. change (c16_emit eof) with (@nil N). rewrite !app_nil_r.
+    split.
+    + apply sem_end. unfold c16_step, spec_next. specialize (HY [] eq_refl). rewrite app_nil_r in HY. rewrite HY. reflexivity.
+    + intros Hc. destruct c as [|b r]; [destruct tp; [exact I|cbn in Hlp; lia]|].
+      destruct (Hnr ltac:(discriminate)) as (e & E2 & -> & He). exact He.
+  - (* one token *)
+    inversion Hsem as [? Hs1|? toks0 rest0 ts0 Hs2 Hsr]; subst; [rewrite Hstep in Hs1; discriminate|].
+    rewrite Hstep in Hs2. injection Hs2 as <- <-.
+    destruct (step_single _ _ _ Hstep) as (tk & Hsn & Hstepf & Hnid).
+    destruct (ign_loop (length c) c (le_n _) Hb Hvt t Ht) as (pre & tp & t' & Hpre & Ht' & Hlp & Hpl & Hk & HY & _ & Hnr).
+    unfold spec_next in Hsn. set (s := skip_ignorable false c) in *.
+    destruct (token_at_nonempty _ _ _ Hsn) as (b0 & s0 & Hs0).
+    assert (Hstart : token_start b0) by (eapply skip_head; exact Hs0).
+    assert (Hbs : bytes_ok s) by (rewrite Hpre in Hb; apply bytes_ok_app in Hb; tauto).
+    assert (Hvs : ~ In 11 s) by (rewrite Hpre in Hvt; eapply not_in_suffix; exact Hvt).
+    destruct Ht' as (Hii & Hae & Hst).
+    destruct (token_run_ii s tk rest (t_code t') (t_hexch t') (t_digits t') Hbs Hsn ltac:(intros X; apply Hvs, in_token_run, X))
+      as (t1 & p & Hr1 & Hi1 & Hsp & Hraw1).
+    rewrite <- (reset_ii t' Hii Hae) in Hr1.
+    destruct (emit_token t1 tk s p rest Hbs Hsn Hsp ltac:(eauto) Hi1 Hraw1) as (P1 & P2 & P3 & _ & Phead & Pclean & Pout).
+    assert (Hplain : tok_plain (tk_token t1)).
+    { split; [exact P1|]. split; [exact P2|]. rewrite P3. destruct tk; try reflexivity. exact Hnid. }
+    assert (Ht1 : tinv (tk_reset t1)) by (eapply tinv_reset; [split; [exact Hii|split; [exact Hae|exact Hst]]|exact Hr1]).
+    assert (Hbr : bytes_ok rest) by (rewrite Hsp in Hbs; apply bytes_ok_app in Hbs; tauto).
+    assert (Hvr : ~ In 11 rest) by (rewrite Hsp in Hvs; eapply not_in_suffix; exact Hvs).
+    destruct (IH Hbr Hvr _ Hsr (tk_reset t1) Ht1) as (tr & Hlr & Hlen & Hbad & Hsemr & Hcl).
+    exists (tp ++ tk_token t1 :: tr).
+    split; [apply Hk; eapply loop_step; [split; [exact Hii|split; [exact Hae|exact Hst]]|exact Hr1|exact Hplain|exact Hlr]|].
+    split.
+    { rewrite app_length. cbn [length]. rewrite Hpre, Hsp, !app_length.
+      assert (length p > 0)%nat by (pose proof (token_consumes _ _ _ _ Hsn Hsp); destruct p; [contradiction|cbn; lia]).
+      lia. }
+    assert (Hnb : existsb tok_is_bad tp = false).
+    { clear - Hpl. induction Hpl as [|y l (A & _) _ IHl]; [reflexivity|]. cbn. rewrite A, IHl. reflexivity. }
+    split; [rewrite existsb_app, Hnb; cbn [existsb]; rewrite P1, Hbad; reflexivity|].
+    rewrite map_app, concat_app. cbn [map concat].
+    set (E := concat (map c16_emit tp)) in *. set (OUT := concat (map c16_emit tr)) in *.
+    destruct (Pout OUT Hcl) as (nl & Hnl & Hspec).
+    destruct Phead as (y & Y' & Hy & Hystart).
+    assert (Hsn' : spec_next (E ++ c16_emit (tk_token t1) ++ OUT) = LexTok tk (nl ++ OUT)).
+    { unfold spec_next. rewrite HY; [exact Hspec|]. unfold head_cond. fold s. rewrite Hs0. rewrite Hy. cbn [app]. eauto. }
+    split.
+    + change [x] with ([x] ++ []). change (x :: ts0) with ([x] ++ ts0). eapply sem_step; [apply Hstepf, Hsn'|].
+      destruct Hnl as [->| ->]; [exact Hsemr|]. apply sem_rel_white; [reflexivity|exact Hsemr].
+    + intros Hc. destruct pre as [|pb pre'].
+      * destruct tp; [|cbn in Hlp; lia]. subst E. cbn [map concat app]. cbn [app] in Hpre. rewrite <- Hpre in Pclean.
+        destruct (Pclean Hc) as (y2 & Y2 & -> & Hy2). exact Hy2.
+      * destruct (Hnr ltac:(discriminate)) as (e & E2 & -> & He). exact He.
+  - (* an inline image *)
+    inversion Hsem as [? Hs1|? toks0 rest0 ts0 Hs2 Hsr]; subst; [rewrite Hstep in Hs1; discriminate|].
+    rewrite Hstep in Hs2. injection Hs2 as <- <-.
+    destruct (step_image _ _ _ _ Hstep) as (ws & Hsn & Hid & Hws & Hcr & Himg).
+    destruct (ign_loop (length c) c (le_n _) Hb Hvt t Ht) as (pre & tp & t' & Hpre & Ht' & Hlp & Hpl & Hk & HY & _ & Hnr).
+    unfold spec_next in Hsn. set (s := skip_ignorable false c) in *.
+    set (rest0 := ws :: data ++ 69 :: 73 :: rest) in *.
+    destruct (token_at_nonempty _ _ _ Hsn) as (b0 & s0 & Hs0).
+    assert (Hstart : token_start b0) by (eapply skip_head; exact Hs0).
+    assert (Hbs : bytes_ok s) by (rewrite Hpre in Hb; apply bytes_ok_app in Hb; tauto).
+    assert (Hvs : ~ In 11 s) by (rewrite Hpre in Hvt; eapply not_in_suffix; exact Hvt).
+    destruct Ht' as (Hii & Hae & Hst).
+    destruct (token_run_ii s _ rest0 (t_code t') (t_hexch t') (t_digits t') Hbs Hsn ltac:(intros X; apply Hvs, in_token_run, X))
+      as (t1 & p & Hr1 & Hi1 & Hsp & Hraw1).
+    rewrite <- (reset_ii t' Hii Hae) in Hr1.
+    destruct (emit_token t1 _ s p rest0 Hbs Hsn Hsp ltac:(eauto) Hi1 Hraw1) as (P1 & P2 & P3 & Pemit & Phead & Pclean & Pout).
+    rewrite Hid in P3.
+    assert (Ht1 : tinv (tk_reset t1)) by (eapply tinv_reset; [split; [exact Hii|split; [exact Hae|exact Hst]]|exact Hr1]).
+    assert (Hbr0 : bytes_ok rest0) by (rewrite Hsp in Hbs; apply bytes_ok_app in Hbs; tauto).
+    assert (Hvr0 : ~ In 11 rest0) by (rewrite Hsp in Hvs; eapply not_in_suffix; exact Hvs).
+    (* the tokenizer in inline-image mode *)
+    set (d := data ++ 69 :: 73 :: rest) in *.
+    set (tI := c16_expect_inline_image (tk_reset t1) d).
+    assert (HtI : t_state tI = TS_inline_image /\ t_in_token tI = true /\ t_before tI = false /\ t_iib tI = N.of_nat (length data) /\
+                  t_raw tI = [] /\ t_incl_ign tI = true /\ t_allow_eof tI = true).
+    { destruct Ht1 as (A & B & _). unfold tI, c16_expect_inline_image. change (is_ready (tk_reset t1)) with false. cbv iota.
+      unfold d at 1. rewrite Hei. cbn in A, B |- *. repeat split; assumption. }
+    destruct HtI as (I1 & I2 & I3 & I4 & I5 & I6 & I7).
+    destruct (image_run data tI (69 :: 73 :: rest) Hne I1 I2 I3 ltac:(unfold raw_len; rewrite I4, I5; cbn; lia)) as (t2 & Hr2 & Hty2 & Hraw2).
+    fold d in Hr2. rewrite I5, app_nil_r in Hraw2.
+    destruct (token_of_simple t2 TT_inline_image data Hty2 Hraw2 I) as (T1 & T2).
+    destruct (read_token_image tI d I1) as (np2 & last2 & Hrt2). rewrite Hr2 in Hrt2. cbn [fst snd] in Hrt2.
+    destruct (run_facts _ _ _ _ Hr2) as (F1 & F2 & _).
+    assert (Ht2 : tinv (tk_reset t2)).
+    { unfold tinv, tk_reset. cbn. rewrite F1, F2, I6, I7. repeat split; discriminate. }
+    (* the EI operator *)
+    assert (Hbd : bytes_ok d) by (eapply bytes_ok_cons_inv; exact Hbr0).
+    assert (Hbe : bytes_ok (69 :: 73 :: rest)) by (unfold d in Hbd; apply bytes_ok_app in Hbd; tauto).
+    assert (Hve : ~ In 11 (69 :: 73 :: rest)).
+    { intros X. apply Hvr0. right. unfold d. apply in_or_app. right. exact X. }
+    destruct Ht2 as (Hii2 & Hae2 & Hst2).
+    destruct (token_run_ii (69 :: 73 :: rest) _ rest (t_code (tk_reset t2)) (t_hexch (tk_reset t2)) (t_digits (tk_reset t2)) Hbe (ei_token rest Hcr)
+                ltac:(intros X; apply Hve, in_token_run, X)) as (t3 & p3 & Hr3 & Hi3 & Hsp3 & Hraw3).
+    rewrite <- (reset_ii (tk_reset t2) Hii2 Hae2) in Hr3.
+    destruct (emit_token t3 _ (69 :: 73 :: rest) p3 rest Hbe (ei_token rest Hcr) Hsp3 ltac:(exists 69; eexists; split; [reflexivity|split; reflexivity]) Hi3 Hraw3)
+      as (Q1 & Q2 & Q3 & Qemit & _ & _ & _).
+    assert (Hp3 : p3 = [69; 73]).
+    { change (69 :: 73 :: rest) with ([69; 73] ++ rest) in Hsp3. apply app_inv_tail in Hsp3. congruence. }
+    rewrite Hp3 in Qemit. cbn in Q3.
+    assert (Ht3 : tinv (tk_reset t3)) by (eapply tinv_reset; [split; [exact Hii2|split; [exact Hae2|exact Hst2]]|exact Hr3]).
+    assert (Hbr : bytes_ok rest) by (do 2 apply bytes_ok_cons_inv in Hbe; exact Hbe).
+    assert (Hvr : ~ In 11 rest) by (intros X; apply Hve; right; right; exact X).
+    destruct (IH Hbr Hvr _ Hsr (tk_reset t3) Ht3) as (tr & Hlr & Hlen & Hbad & Hsemr & Hcl).
+    set (Tid := tk_token t1) in *. set (Timg := tk_token t2) in *. set (Tei := tk_token t3) in *.
+    exists (tp ++ Tid :: c16_space_token ws :: Timg :: Tei :: tr).
+    assert (Hloop : loop_rel t' s (Tid :: c16_space_token ws :: Timg :: Tei :: tr)).
+    { destruct (read_token_run t' s Hst) as (np & last & Hrt). rewrite Hr1 in Hrt. cbn [fst snd] in Hrt.
+      change (c16_space_token ws) with (c16_space_token (hd 32 rest0)).
+      eapply lr_id; [exact Hrt|exact P2|exact P3|]. change (tl rest0) with d. fold tI.
+      eapply lr_tok; [exact Hrt2| | |].
+      - rewrite T1. reflexivity.
+      - unfold c16_is_word_ID. rewrite T1. reflexivity.
+      - eapply loop_step; [split; [exact Hii2|split; [exact Hae2|exact Hst2]]|exact Hr3| |exact Hlr].
+        split; [exact Q1|]. split; [exact Q2|]. change (c16_is_word_ID Tei = false). rewrite Q3. reflexivity. }
+    split; [apply Hk, Hloop|].
+    split.
+    { rewrite app_length. cbn [length]. rewrite Hpre, Hsp, !app_length. unfold rest0, d. cbn [length]. rewrite app_length. cbn [length].
+      assert (length p > 0)%nat by (pose proof (token_consumes _ _ _ _ Hsn Hsp); destruct p; [contradiction|cbn; lia]).
+      assert (length data > 0)%nat by (destruct data; [contradiction|cbn; lia]). lia. }
+    assert (Hnb : existsb tok_is_bad tp = false).
+    { clear - Hpl. induction Hpl as [|y l (A & _) _ IHl]; [reflexivity|]. cbn. rewrite A, IHl. reflexivity. }
+    split.
+    { rewrite existsb_app, Hnb. cbn [existsb]. rewrite P1, Q1, Hbad. unfold tok_is_bad at 2. rewrite T1. reflexivity. }
+    rewrite map_app, concat_app. cbn [map concat].
+    set (E := concat (map c16_emit tp)) in *. set (OUT := concat (map c16_emit tr)) in *.
+    assert (E1 : c16_emit Tid = p) by exact Pemit.
+    assert (E3 : c16_emit Timg = data) by (unfold c16_emit; rewrite T1, T2; reflexivity).
+    assert (E4 : c16_emit Tei = [69; 73]) by exact Qemit.
+    destruct (space_norm_single ws Hws) as (ws' & E2 & Hws').
+    change (c16_emit (c16_space_token ws)) with (c16_space_norm [ws]). rewrite E1, E2, E3, E4.
+    destruct Phead as (y & Y' & Hy & Hystart). rewrite E1 in Hy.
+    destruct (token_local _ _ _ Hsn) as (p' & Hp' & _ & Hloc).
+    assert (p' = p) by (rewrite Hsp in Hp'; apply app_inv_tail in Hp'; congruence). subst p'.
+    set (Z := [ws'] ++ data ++ [69; 73] ++ OUT).
+    assert (Hsn' : spec_next (E ++ p ++ Z) = LexTok (PKeyword w) Z).
+    { unfold spec_next. rewrite HY.
+      - apply Hloc. intros _. unfold Z. cbn. apply white_not_regular, Hws'.
+      - unfold head_cond. fold s. rewrite Hs0, Hy. cbn [app]. eauto. }
+    split.
+    + change (CsOp w :: CsImage data :: ts0) with ([CsOp w; CsImage data] ++ ts0).
+      eapply sem_step; [|exact Hsemr]. unfold c16_step. rewrite Hsn', Hid. unfold Z. cbn [app c16_after_ID]. rewrite Hws'.
+      rewrite (Himg OUT (Hcl Hcr)). reflexivity.
+    + intros Hc. destruct pre as [|pb pre'].
+      * destruct tp; [|cbn in Hlp; lia]. subst E. cbn [map concat app]. cbn [app] in Hpre. rewrite <- Hpre in Pclean.
+        destruct (Pclean Hc) as (y2 & Y2 & Hy2 & Hy3). rewrite E1 in Hy2. rewrite Hy2. exact Hy3.
+      * destruct (Hnr ltac:(discriminate)) as (e & E2' & -> & He). exact He.
+Qed.
